@@ -524,6 +524,21 @@ func impEmbed(r *RNG, kind string, w, h int, tight []byte) (pix []byte, stride i
 		// tight stride at the origin, 1..64 garbage bytes after the last row
 		pix = append(append([]byte(nil), tight...), impNoOpaqueAlpha(r.Bytes(1+r.Intn(64)))...)
 		return pix, 4 * w, image.Rect(0, 0, w, h)
+	case "corner":
+		// view into the bottom-right corner of a parent: Stride > 4*w and Pix stops exactly at the last
+		// in-bounds pixel, len(Pix) = (h-1)*Stride + 4*w < h*Stride
+		ox, oy := 1+r.Intn(4), r.Intn(3)
+		px, py := 0, 0
+		if r.Chance(1, 3) {
+			px, py = r.Intn(21)-10, r.Intn(21)-10
+		}
+		parent := image.NewNRGBA(image.Rect(px, py, px+ox+w, py+oy+h))
+		copy(parent.Pix, r.Bytes(len(parent.Pix)))
+		for y := 0; y < h; y++ {
+			copy(parent.Pix[parent.PixOffset(px+ox, py+oy+y):], tight[y*4*w:(y+1)*4*w])
+		}
+		sub := parent.SubImage(image.Rect(px+ox, py+oy, px+ox+w, py+oy+h)).(*image.NRGBA)
+		return sub.Pix[:len(sub.Pix):len(sub.Pix)], sub.Stride, sub.Rect
 	default: // "sub": SubImage of a larger parent whose own origin may be non-zero
 		ox, oy := r.Intn(4), r.Intn(4)
 		if ox == 0 && oy == 0 {
@@ -601,7 +616,7 @@ func impGenLines(seed uint64, nPics int, rep *Report) []impLine {
 		premul := impPremul(tight)
 		noZero := !impHasZeroAlpha(tight)
 
-		embs := []string{"origin", "sub", "pad", "shift", "band", "tail"}
+		embs := []string{"origin", "sub", "pad", "shift", "band", "tail", "corner"}
 		for _, emb := range embs {
 			// src kinds: NRGBA bytes as n/gn; premultiplied bytes as r/gr; now and then the raw
 			// (invalid as premultiplied: c > a) bytes as r/gr
@@ -799,13 +814,14 @@ func (p *impPlaced) mutateOutside(r *RNG) int {
 	return n
 }
 
-var impPlacements = []string{"sub11", "sub30", "sub05", "pad4", "pad12", "shift", "band", "tail", "generic", "generic64", "genericRGBA64", "genericRGBA", "rgba-generic", "rgba-sub", "rgba-band", "rgba-tail"}
+var impPlacements = []string{"sub11", "sub30", "sub05", "pad4", "pad12", "shift", "band", "tail", "generic", "generic64", "genericRGBA64", "genericRGBA", "rgba-generic", "rgba-sub", "rgba-band", "rgba-tail", "corner", "rgba-corner"}
 
 // impRefOf names the placement whose encoding must be reproduced.
 func impRefOf(pl string) string {
 	if strings.HasPrefix(pl, "rgba-") {
 		return "rgba"
 	}
+	// "corner" (NRGBA) is compared with the origin placement like every other NRGBA form
 	return "origin"
 }
 
@@ -942,6 +958,33 @@ func impPlace(name string, w, h int, tight []byte, gseed uint64) (*impPlaced, st
 	case "rgba-generic":
 		m := &image.RGBA{Pix: impPremul(tight), Stride: 4 * w, Rect: image.Rect(0, 0, w, h)}
 		return &impPlaced{img: impGenRGBA{m}, buf: m.Pix, hdr: rgbaHdr(m)}, ""
+	case "corner", "rgba-corner":
+		// view into the bottom-right corner of a parent, sliced tight: Stride = 4*(ox+w) > 4*w and Pix stops
+		// exactly at the last in-bounds pixel: len(Pix) = cap(Pix) = (h-1)*Stride + 4*w < h*Stride
+		src := tight
+		if name == "rgba-corner" {
+			src = impPremul(tight)
+		}
+		ox, oy := 1+g.Intn(3), g.Intn(3)
+		pw, ph := ox+w, oy+h
+		stride := 4 * pw
+		pix := g.Bytes(stride * ph)
+		for y := 0; y < h; y++ {
+			copy(pix[(oy+y)*stride+4*ox:], src[y*4*w:(y+1)*4*w])
+		}
+		inside := func(i int) bool {
+			row, col := i/stride, (i%stride)/4
+			return row >= oy && row < oy+h && col >= ox
+		}
+		view := pix[oy*stride+4*ox:]
+		view = view[:len(view):len(view)]
+		rect := image.Rect(ox, oy, ox+w, oy+h)
+		if name == "rgba-corner" {
+			m := &image.RGBA{Pix: view, Stride: stride, Rect: rect}
+			return &impPlaced{img: m, buf: pix, hdr: rgbaHdr(m), inside: inside}, ""
+		}
+		m := &image.NRGBA{Pix: view, Stride: stride, Rect: rect}
+		return &impPlaced{img: m, buf: pix, hdr: nrgbaHdr(m), inside: inside}, ""
 	case "rgba-sub":
 		pix, _, inside, pw, ph := sub(2, 1, impPremul(tight))
 		parent := &image.RGBA{Pix: pix, Stride: 4 * pw, Rect: image.Rect(0, 0, pw, ph)}
@@ -949,6 +992,21 @@ func impPlace(name string, w, h int, tight []byte, gseed uint64) (*impPlaced, st
 		return &impPlaced{img: m, buf: parent.Pix, hdr: rgbaHdr(m), inside: inside}, ""
 	}
 	return nil, "unknown-placement"
+}
+
+// impExtra is one of the extra Part C pictures: a threshold-crossing size, an exact colour count or an exact
+// number of alpha levels.
+type impExtra struct {
+	kind string // size | colors | alpha-levels
+	tc   ThresholdCase
+	cc   CountCase
+}
+
+func (e impExtra) String() string {
+	if e.kind == "size" {
+		return e.tc.String()
+	}
+	return e.kind + "=" + e.cc.String()
 }
 
 type impEnc struct {
@@ -1263,7 +1321,7 @@ func suiteImport(rep *Report) error {
 	if rich {
 		nCorrPics, nPics, nLossless, nLossy = 3000, 5000, 8, 32
 	}
-	rep.Rule = "pictures from GenImage (8 colour classes x 7 alpha classes, plus sprinkled low/boundary alpha values; a third forced opaque, because has-alpha scans are only observable on opaque pictures), sizes 1..48 with emphasis on 1xN, Nx1 and the 8/16/17/32/33 boundaries; Part B: each picture is embedded at the origin, as a SubImage of a garbage-filled parent (also with a non-zero parent origin), as a full-width band of a taller parent (Stride == 4w with trailing rows whose alpha bytes are never 255), with 1..64 trailing garbage bytes after a tight picture, with padded (also non-multiple-of-4) stride, with a shifted Rect, as *image.NRGBA / *image.RGBA (properly premultiplied, and deliberately invalid c>a) and behind image.Image-only wrappers, plus malformed Pix/Stride/Rect values for the guarded webp-level functions, and every import loop of encode.go and lossy/encode.go is compared with the Lean model; the plane imports (imp_y, imp_uvrows) run for 6 lines out of 7 on a VP8Encoder object that has just imported another picture of the same macroblock dimensions (alpha through At(), alpha with dithering, alpha on the row-parallel path, opaque through At(); hook ImportPlanesAfter, pool reuse verified by pointer), the model answer being a function of the image alone; Part C: webp.Encode of 16 placements of the same pixels (3 sub-images, 2 paddings, shifted Rect, full-width band, trailing bytes with cap>len, 4 generic wrappers, RGBA vs generic RGBA / RGBA sub-image / band / tail) under lossless/lossy x Exact x SharpYUV x dithering x Method{0,4} x 2 qualities must be byte-identical to the origin encoding, stay identical after every/some outside byte is changed, leave the caller's whole buffer and header unchanged, and (5 option sets per picture) still equal the reference when the placement is encoded right after another picture with equal macroblock dimensions (dithered alpha, generic Exact alpha, NRGBA alpha, generic opaque, lossless alpha); about 10 extra pictures per run have threshold-crossing sizes (thresholds.go: widths/heights 256..16383, pixel counts 1000..100000, 510 macroblocks, 3/4/6 macroblock rows) with cheap content; a mismatch that does not show again when re-run is reported as ':history-dependent', never dropped (counter nonreproducible); non-trivial = the picture has at least two different pixel values (a wrong offset, stride or conversion would change the imported data) and the comparison was actually carried out; distinct = FNV of picture + placement + option set [+ prior] (Part C) or of the driver line (Part B)"
+	rep.Rule = "pictures from GenImage (8 colour classes x 7 alpha classes, plus sprinkled low/boundary alpha values; a third forced opaque, because has-alpha scans are only observable on opaque pictures), sizes 1..48 with emphasis on 1xN, Nx1 and the 8/16/17/32/33 boundaries; Part B: each picture is embedded at the origin, as a SubImage of a garbage-filled parent (also with a non-zero parent origin), as a full-width band of a taller parent (Stride == 4w with trailing rows whose alpha bytes are never 255), with 1..64 trailing garbage bytes after a tight picture, as a view into the bottom-right corner of a parent whose Pix stops exactly at the last in-bounds pixel (Stride > 4w, len(Pix) = (h-1)*Stride+4w < h*Stride), with padded (also non-multiple-of-4) stride, with a shifted Rect, as *image.NRGBA / *image.RGBA (properly premultiplied, and deliberately invalid c>a) and behind image.Image-only wrappers, plus malformed Pix/Stride/Rect values for the guarded webp-level functions, and every import loop of encode.go and lossy/encode.go is compared with the Lean model; the plane imports (imp_y, imp_uvrows) run for 6 lines out of 7 on a VP8Encoder object that has just imported another picture of the same macroblock dimensions (alpha through At(), alpha with dithering, alpha on the row-parallel path, opaque through At(); hook ImportPlanesAfter, pool reuse verified by pointer), the model answer being a function of the image alone; Part C: webp.Encode of 18 placements of the same pixels (3 sub-images, 2 paddings, shifted Rect, full-width band, trailing bytes with cap>len, corner view sliced tight at the last in-bounds pixel, 4 generic wrappers, RGBA vs generic RGBA / RGBA sub-image / band / tail / corner view) under lossless/lossy x Exact x SharpYUV x dithering x Method{0,4} x 2 qualities must be byte-identical to the origin encoding, stay identical after every/some outside byte is changed, leave the caller's whole buffer and header unchanged, and (5 option sets per picture) still equal the reference when the placement is encoded right after another picture with equal macroblock dimensions (dithered alpha, generic Exact alpha, NRGBA alpha, generic opaque, lossless alpha); about 10 extra pictures per run have threshold-crossing sizes (thresholds.go: widths/heights 256..16383, pixel counts 1000..100000, 510 macroblocks, 3/4/6 macroblock rows) with cheap content, 4 pictures have an exact number of colours around 2/4/16/192/256 (lossless option sets, Exact off and on) and 4 have exactly 16, 17, 192, 193 alpha levels (lossy option sets, Exact off and on), all 18 placements each; a mismatch that does not show again when re-run is reported as ':history-dependent', never dropped (counter nonreproducible); non-trivial = the picture has at least two different pixel values (a wrong offset, stride or conversion would change the imported data) and the comparison was actually carried out; distinct = FNV of picture + placement + option set [+ prior] (Part C) or of the driver line (Part B)"
 
 	impPriorReused.Store(0)
 	impPriorNotReused.Store(0)
@@ -1371,7 +1429,31 @@ func suiteImport(rep *Report) error {
 		CountThreshold(rep, tc)
 	}
 	rep.Extra["threshold_cases"] = fmt.Sprint(thr)
-	nAll := nPics + len(thr)
+	// pictures with an exact number of colours (lossless path: palette packing 2 / 4 / 16, palette vs none at
+	// 256) and with an exact number of alpha levels (lossy path: the alpha filter choice at 16 and 192 levels)
+	nCol := 4
+	if rich {
+		nCol = 15
+	}
+	var extras []impExtra
+	for _, tc := range thr {
+		extras = append(extras, impExtra{kind: "size", tc: tc})
+	}
+	for _, cc := range DrawCountCases(rep.Seed, 0x190b, nCol, "colors", 2, 300) {
+		CountCount(rep, cc)
+		extras = append(extras, impExtra{kind: "colors", cc: cc})
+	}
+	for _, t := range Thresholds {
+		if t.Unit == "colors" && (t.Value == 16 || t.Value == 192) {
+			for rel := 0; rel <= 1; rel++ {
+				cc := CountCase{N: t.Value + rel, T: t, Rel: rel}
+				CountCount(rep, cc)
+				extras = append(extras, impExtra{kind: "alpha-levels", cc: cc})
+			}
+		}
+	}
+	rep.Extra["count_cases"] = fmt.Sprint(extras[len(thr):])
+	nAll := nPics + len(extras)
 	histSel := func(k int) bool { return k == 0 || k == 4 || k == 5 || k == 10 }
 	if rich {
 		histSel = func(k int) bool { return k%5 == 0 }
@@ -1389,8 +1471,20 @@ func suiteImport(rep *Report) error {
 		var pic *image.NRGBA
 		var desc, clsName string
 		isThr := i >= nPics
-		if isThr {
-			tc := thr[i-nPics]
+		if isThr && extras[i-nPics].kind != "size" {
+			// exact colour / alpha-level counts on a small picture (at least 301 pixels)
+			ex := extras[i-nPics]
+			w = 17 + r.Intn(16)
+			h = (300+w)/w + r.Intn(3)
+			if ex.kind == "colors" {
+				pic = GenColorCountImage(r, w, h, ex.cc.N)
+			} else {
+				pic = GenAlphaLevelsImage(r, w, h, ex.cc.N)
+			}
+			acls = AlphaNone
+			desc, clsName = fmt.Sprintf("%dx%d/%s=%s", w, h, ex.kind, ex.cc.String()), "count-"+ex.kind
+		} else if isThr {
+			tc := extras[i-nPics].tc
 			w, h = tc.W, tc.H
 			kind := 1 + r.Intn(NumCheapClasses-1)
 			acls = AlphaNone
@@ -1468,7 +1562,13 @@ func suiteImport(rep *Report) error {
 			prior string
 		}
 		var sets []optSet
-		if isThr {
+		if isThr && extras[i-nPics].kind == "colors" {
+			j := i - nPics // lossless only, Exact off and on, one of them right after another lossless picture
+			sets = []optSet{{allLL[j%4], ""}, {allLL[4+(j+1)%4], impPriorLossless}, {allLL[(3*j+2)%len(allLL)], ""}}
+		} else if isThr && extras[i-nPics].kind == "alpha-levels" {
+			j := i - nPics // lossy only, Exact off and on
+			sets = []optSet{{allLY[(5*j)%16], impPriorsLossy[j%len(impPriorsLossy)]}, {allLY[16+(5*j+3)%16], ""}, {allLY[(7*j+9)%len(allLY)], ""}}
+		} else if isThr {
 			j := i - nPics
 			sets = []optSet{{allLL[(2*j)%len(allLL)], ""}, {allLY[(5*j)%len(allLY)], impPriorsLossy[j%len(impPriorsLossy)]}, {allLY[(5*j+17)%len(allLY)], ""}}
 		} else {
